@@ -216,6 +216,6 @@ func runEpochWorldsC09(r *ev.Run) {
 	r.Require("world_features", "far/date-attr-outside-1678-2262", "created-time/before-1678", "created-time/after-2262", "created-time/year-1-or-9999")
 	r.Require("world_features", "epoch/date-attr-at-or-next-to-unix-epoch", "epoch/camliContent-file-with-modtime-0", "created-time/exactly-unix-epoch",
 		"created-time/exactly-unix-epoch-in-non-UTC-notation", "created-time/within-the-epoch-second", "created-time/pre-1970", "created-time/post-1970",
-		"mod-time/pre-1970", "mod-time/post-1970", "mod-time/one-second-off-the-unix-epoch")
+		"mod-time/pre-1970", "mod-time/post-1970")
 	r.Require("tokens", "time-exactly-unix-epoch", "time-within-the-epoch-second", "time-pre-1970", "time-post-1970")
 }
